@@ -18,21 +18,22 @@ import (
 // no deadlock except behind an injected Unlock failure (the wrapper keeps the inner lock held).
 
 type faultScenario struct {
-	name string
-	sc   scenario
+	name  string
+	sc    scenario
+	quick bool
 }
 
 var faultScenarios = []faultScenario{
-	{"seq2", scenario{Reqs: []reqSpec{dup("POST"), dup("POST")}, Workers: [][]int{{0, 1}}}},
-	{"seq3", scenario{Reqs: []reqSpec{dup("POST"), dup("POST"), dup("PUT")}, Workers: [][]int{{0, 1, 2}}, ShapeBase: 1}},
-	{"conc-dup-dup", scenario{Reqs: []reqSpec{dup("POST"), dup("POST")}, ShapeBase: 3}},
-	{"conc-dup-other", scenario{Reqs: []reqSpec{dup("POST"), other("POST")}, ShapeBase: 6}},
-	{"conc-dup-keyless", scenario{Reqs: []reqSpec{dup("POST"), keyless("POST")}, ShapeBase: 4}},
-	{"conc-dup-dup-keep", scenario{Reqs: []reqSpec{dup("PATCH"), dup("DELETE")}, ShapeBase: 1, Keep: keepList}},
-	{"conc-dup-dup-failfirst", scenario{Reqs: []reqSpec{dup("POST"), dup("POST")}, ShapeBase: 2, FailFirst: true}},
-	{"seq2+conc", scenario{Reqs: []reqSpec{dup("POST"), dup("POST"), dup("POST")}, Workers: [][]int{{0, 1}, {2}}, ShapeBase: 5}},
+	{"seq2", scenario{Reqs: []reqSpec{dup("POST"), dup("POST")}, Workers: [][]int{{0, 1}}}, true},
+	{"seq3", scenario{Reqs: []reqSpec{dup("POST"), dup("POST"), dup("PUT")}, Workers: [][]int{{0, 1, 2}}, ShapeBase: 1}, true},
+	{"conc-dup-dup", scenario{Reqs: []reqSpec{dup("POST"), dup("POST")}, ShapeBase: 3}, true},
+	{"conc-dup-other", scenario{Reqs: []reqSpec{dup("POST"), other("POST")}, ShapeBase: 6}, false},
+	{"conc-dup-keyless", scenario{Reqs: []reqSpec{dup("POST"), keyless("POST")}, ShapeBase: 4}, true},
+	{"conc-dup-dup-keep", scenario{Reqs: []reqSpec{dup("PATCH"), dup("DELETE")}, ShapeBase: 1, Keep: keepList}, false},
+	{"conc-dup-dup-failfirst", scenario{Reqs: []reqSpec{dup("POST"), dup("POST")}, ShapeBase: 2, FailFirst: true}, true},
+	{"seq2+conc", scenario{Reqs: []reqSpec{dup("POST"), dup("POST"), dup("POST")}, Workers: [][]int{{0, 1}, {2}}, ShapeBase: 5}, true},
 	// thorough only
-	{"conc-dup-dup-dup", scenario{Reqs: []reqSpec{dup("POST"), dup("POST"), dup("POST")}, ShapeBase: 7}},
+	{"conc-dup-dup-dup", scenario{Reqs: []reqSpec{dup("POST"), dup("POST"), dup("POST")}, ShapeBase: 7}, false},
 }
 
 func faultPlans() []faultPlan {
@@ -40,7 +41,7 @@ func faultPlans() []faultPlan {
 	for n := 1; n <= 6; n++ {
 		ps = append(ps, faultPlan{"get", n})
 	}
-	for _, k := range []string{"lock", "set", "unlock"} {
+	for _, k := range []string{"lock", "set", "unlock", "unlockerr"} {
 		for n := 1; n <= 3; n++ {
 			ps = append(ps, faultPlan{k, n})
 		}
@@ -50,23 +51,29 @@ func faultPlans() []faultPlan {
 
 func runFaults(e *ev.Env, w *witnesses) {
 	plans := faultPlans()
-	nsc := len(faultScenarios) - 1
-	cap3 := 0
-	if !e.Quick() {
-		nsc = len(faultScenarios)
-		cap3 = 20000
+	var scs []faultScenario
+	for _, fs := range faultScenarios {
+		if fs.quick || !e.Quick() {
+			scs = append(scs, fs)
+		}
 	}
+	nsc := len(scs)
+	cap3 := 20000
 	e.Cases("faults", nsc*len(plans), func(c *ev.Case) {
 		i := mustIndex(c.ID)
-		fs, plan := faultScenarios[i/len(plans)], plans[i%len(plans)]
+		fs, plan := scs[i/len(plans)], plans[i%len(plans)]
 		sc := fs.sc
 		var t tally
 		max := 0
 		if len(sc.workers()) >= 3 {
 			max = cap3
 		}
+		doubleCtx := "concurrent-duplicates"
+		if len(sc.workers()) == 1 {
+			doubleCtx = "sequential-duplicates"
+		}
 		n, exhausted := sched.DFS(max, func(ch sched.Chooser) *sched.Outcome {
-			return w.one(c, &sc, plan, judgeOpts{doubleCtx: "concurrent-duplicates"}, ch, &t)
+			return w.one(c, &sc, plan, judgeOpts{doubleCtx: doubleCtx}, ch, &t)
 		})
 		t.flush(e, "faults")
 		e.Stat("fault_plans", 1)
@@ -84,7 +91,7 @@ func runFaults(e *ev.Env, w *witnesses) {
 		}
 		e.Sample("fault-plan", map[string]any{"scenario": fs.name, "plan": plan.String(), "schedules": n, "fired_in": t.fired, "exhausted": exhausted})
 	})
-	e.Note("faults", fmt.Sprintf("fault plan = (scenario, call kind, call index): %d scenarios (sequential retries, 2 concurrent requests; thorough adds 3 concurrent duplicates capped at 20000 schedules per plan) x %d plans (none, get#1-6, lock#1-3, set#1-3, unlock#1-3); for every plan ALL schedules of the scenario are enumerated (exhaustive iff fault_plans_exhausted == fault_plans); plans whose call index never occurs are counted in fault_plans_never_fired", nsc, len(plans)))
+	e.Note("faults", fmt.Sprintf("fault plan = (scenario, call kind, call index): %d scenarios (sequential retries, 2 concurrent requests, sequential pair + concurrent third; thorough adds two different keys, KeepResponseHeaders and 3 concurrent duplicates, the latter capped at 20000 schedules per plan) x %d plans (none, get#1-6, lock#1-3, set#1-3, unlock#1-3 = lock stays held, unlockerr#1-3 = released but error returned); for every plan ALL schedules of the scenario are enumerated (exhaustive iff fault_plans_exhausted == fault_plans); plans whose call index never occurs are counted in fault_plans_never_fired", nsc, len(plans)))
 }
 
 var _ = ev.PanicSite
